@@ -454,7 +454,8 @@ def run_property(prop: str, tier: str, seed: int, replay_path: str | None = None
 
 
 def _write_evidence(prop, ev):
-    d = os.path.join(ROOT, "evidence")
+    # sensitivity experiments (VERIF_REPO = a scratch worktree with a seeded change) must not overwrite the evidence of /repo
+    d = os.path.join(ROOT, "evidence_scratch" if os.environ.get("VERIF_REPO") else "evidence")
     os.makedirs(d, exist_ok=True)
     with open(os.path.join(d, f"{prop}.json"), "w") as fh:
         json.dump(ev, fh, indent=1, default=str, sort_keys=True)
